@@ -446,40 +446,7 @@ func runC13(r *Report, tier string) {
 		o.check(why == "", fmt.Sprintf("%d accepting paths, all satisfy the cell", len(ps)), why)
 	}
 	r.floor("R13.1", nAcc, 15, "accepting per-entry paths of the validator")
-	// R13.3 + normalisation on every accepted path
-	{
-		why := ""
-		for _, ep := range eps {
-			if !ep.accepted {
-				continue
-			}
-			okNorm, okDup := false, false
-			for _, c := range ep.p.conds {
-				if c.Val && c.Pred.Op == "res" && c.Pred.S == "1" && c.Pred.Args[0].Op == "call" && c.Pred.Args[0].S == shortFn(norm) {
-					okNorm = true
-				}
-				if !c.Val && c.Pred.Op == "res" && c.Pred.S == "1" && c.Pred.Args[0].Op == "lookup" && c.Pred.Args[0].S == "ok" && strings.Contains(c.Pred.Args[0].Args[1].String(), "call<"+shortFn(norm)+">") {
-					okDup = true
-				}
-			}
-			if !okNorm {
-				why = "an entry is accepted without a successful label normalisation"
-			} else if !okDup {
-				why = "an entry is accepted without the duplicate test on its normalised label"
-			}
-		}
-		r.ob("R13.3", shortFn(val)+":unique", val, nil, "every accepted entry normalised its label and passed the duplicate test").check(why == "", "normalise ok and !seen(label) on every accepting path", why)
-		// the set is filled with the normalised label
-		filled := false
-		for _, b := range val.Blocks {
-			for _, in := range b.Instrs {
-				if mu, ok := in.(*ssa.MapUpdate); ok && strings.Contains(P.terms.of(mu.Key).String(), "call<"+shortFn(norm)+">") && P.terms.of(mu.Map).Op == "makemap" {
-					filled = true
-				}
-			}
-		}
-		r.ob("R13.3", shortFn(val)+":records", val, nil, "the normalised label is recorded in the seen-set").check(filled, "seen[normalised label] = ...", "no insertion of the normalised label into a local set")
-	}
+	checkValidatorUniqueness(r, "R13.3")
 	// R13.2 encoders + decoders
 	checkBucketEncoders(r, "R13.2")
 	c05Buckets(r, "R13.2")
@@ -654,6 +621,46 @@ func checkStructureEncodersIV(r *Report, rule string) {
 		}
 	}
 	r.floor(rule, ne, 5, "structure encoder success exits")
+}
+
+// checkValidatorUniqueness: every accepted entry normalised its label and
+// passed the duplicate test on the normalised label (R13.3 / R08.5).
+func checkValidatorUniqueness(r *Report, rule string) {
+	P := r.P
+	val := P.headerValidator()
+	norm := P.labelNormalizer()
+	eps, _ := P.validatorEntryPaths(val)
+		why := ""
+		for _, ep := range eps {
+			if !ep.accepted {
+				continue
+			}
+			okNorm, okDup := false, false
+			for _, c := range ep.p.conds {
+				if c.Val && c.Pred.Op == "res" && c.Pred.S == "1" && c.Pred.Args[0].Op == "call" && c.Pred.Args[0].S == shortFn(norm) {
+					okNorm = true
+				}
+				if !c.Val && c.Pred.Op == "res" && c.Pred.S == "1" && c.Pred.Args[0].Op == "lookup" && c.Pred.Args[0].S == "ok" && strings.Contains(c.Pred.Args[0].Args[1].String(), "call<"+shortFn(norm)+">") {
+					okDup = true
+				}
+			}
+			if !okNorm {
+				why = "an entry is accepted without a successful label normalisation"
+			} else if !okDup {
+				why = "an entry is accepted without the duplicate test on its normalised label"
+			}
+		}
+		r.ob(rule, shortFn(val)+":unique", val, nil, "every accepted entry normalised its label and passed the duplicate test").check(why == "", "normalise ok and !seen(label) on every accepting path", why)
+		// the set is filled with the normalised label
+		filled := false
+		for _, b := range val.Blocks {
+			for _, in := range b.Instrs {
+				if mu, ok := in.(*ssa.MapUpdate); ok && strings.Contains(P.terms.of(mu.Key).String(), "call<"+shortFn(norm)+">") && P.terms.of(mu.Map).Op == "makemap" {
+					filled = true
+				}
+			}
+		}
+		r.ob(rule, shortFn(val)+":records", val, nil, "the normalised label is recorded in the seen-set").check(filled, "seen[normalised label] = ...", "no insertion of the normalised label into a local set")
 }
 
 func mutC13() []mutant {
